@@ -1,6 +1,7 @@
 package props
 
 import (
+	"strings"
 	"fmt"
 	"go/ast"
 	"go/token"
@@ -385,4 +386,42 @@ func constBytesOf(v ssa.Value) (string, bool) {
 		return core.ConstStr(cv.X)
 	}
 	return core.ConstStr(v)
+}
+
+// c06EscapeAtCursor: "starts with a valid escape" looks at the bytes at the cursor.
+func c06EscapeAtCursor(c *core.Check) {
+	p := c.Prog
+	r := c.Rule("R9", "valid escapes are tested at the cursor: in the consumers of the tokenizer, every test whether the input starts with backslash-newline (an invalid escape) slices the source at the current position tk.pos — not at the start of the token or another saved position", 2)
+	n := 0
+	for _, fn := range p.FuncsOfPkg("css/parser") {
+		if fn.Signature.Recv() == nil || !strings.Contains(fn.Signature.Recv().Type().String(), "tokenizer") {
+			continue
+		}
+		fn := fn
+		core.Instrs(fn, func(in ssa.Instruction) {
+			call, ok := in.(*ssa.Call)
+			if !ok || call.Call.StaticCallee() == nil || call.Call.StaticCallee().Name() != "HasPrefix" || len(call.Call.Args) != 2 {
+				return
+			}
+			pat, ok := constBytesOf(call.Call.Args[1])
+			if !ok || !strings.HasPrefix(pat, "\\") {
+				return
+			}
+			sl, ok := call.Call.Args[0].(*ssa.Slice)
+			if !ok || sl.Low == nil || !core.IsFieldNamed(sl.X, "src") {
+				return
+			}
+			n++
+			low := sl.Low
+			if b, isB := low.(*ssa.BinOp); isB && b.Op == token.ADD {
+				if _, isK := core.ConstInt(b.Y); isK {
+					low = b.X
+				}
+			}
+			r.Cond(core.IsFieldNamed(low, "pos"), core.FuncName(fn)+fmt.Sprintf(" | HasPrefix(src[…:], %q)", pat), p.Pos(call.Pos()), "sliced at tk.pos", "the test for an escape looks at "+exprName(low)+", not at the cursor: an invalid escape further in the token is consumed as valid (`foo\\<newline>bar` becomes one identifier)")
+		})
+	}
+	if n == 0 {
+		r.Anchor("tokenizer: tests of the backslash-newline prefix")
+	}
 }
